@@ -7,7 +7,7 @@ Correspondence (every run): a value the JSON codec refuses is planted at EVERY a
 (request through an `any` field, or an attempt's response), directly through Vault.Create and through
 Workstream.Submit; duplicate creates; interleaved creates/deletes of 2-5 plans; (sqlite) plans that share one
 object id with a stored plan; (cosmosdb fake) createItemErr / deleteItemErr before the plan batch and between the
-plan batch and the search batch; thorough tier: a child process killed at random instants during Create on a
+plan batch and the search batch, readItemErr (a non-404 read error) during a duplicate-id and a fresh-id Create; thorough tier: a child process killed at random instants during Create on a
 file-backed store. Observed after every operation: result class, Read of every plan id, and - file-backed sqlite -
 the row counts per table per plan_id over the harness's own SQL connection (orphan rows are invisible to Read).
 The model is run on the same operations in Coq and must give the same result classes, reads and counts.
@@ -20,9 +20,9 @@ def run(ctx):
     ctx.static_and_proofs("store")
     quick = ctx.tier == "quick"
     if quick:
-        args = ["-plant", "6", "-plantcz", "3", "-submit", "4", "-dup", "12", "-interleave", "18", "-collide", "10", "-fault", "9"]
+        args = ["-plant", "6", "-plantcz", "3", "-submit", "4", "-dup", "12", "-interleave", "18", "-collide", "10", "-fault", "12"]
     else:
-        args = ["-plant", "60", "-plantcz", "30", "-submit", "40", "-dup", "120", "-interleave", "240", "-collide", "100", "-fault", "90", "-kill", "300"]
+        args = ["-plant", "60", "-plantcz", "30", "-submit", "40", "-dup", "120", "-interleave", "240", "-collide", "100", "-fault", "120", "-kill", "300"]
     cases = ctx.harness("c14", args, timeout=3000)
     if cases is None:
         ctx.evidence(dict(evaluations=0, distinct_nontrivial=0, rule="harness did not run", samples=[]))
